@@ -18,6 +18,7 @@ var defaultRedirects = map[string]string{
 	"internal/bytealg.IndexString":       "golang.org/x/telemetry/internal/vrt.IndexString",
 	"internal/bytealg.Equal":             "golang.org/x/telemetry/internal/vrt.BytesEqual",
 	"internal/bytealg.Compare":           "golang.org/x/telemetry/internal/vrt.BytesCompare",
+	"internal/bytealg.CompareString":     "golang.org/x/telemetry/internal/vrt.CompareString",
 	"internal/bytealg.LastIndexByte":     "golang.org/x/telemetry/internal/vrt.LastIndexByte",
 	"internal/bytealg.LastIndexByteString": "golang.org/x/telemetry/internal/vrt.LastIndexByteString",
 	"strings.Index":                      "golang.org/x/telemetry/internal/vrt.IndexString",
@@ -36,6 +37,9 @@ var defaultRedirects = map[string]string{
 	"time.Now":                           "golang.org/x/telemetry/internal/vrt.Now",
 	"html.EscapeString":                  "golang.org/x/telemetry/internal/vrt.EscapeString",
 	"unicode.IsSpace":                    "golang.org/x/telemetry/internal/vrt.IsSpaceRune",
+	"unicode.IsLetter":                   "golang.org/x/telemetry/internal/vrt.IsLetterRune",
+	"unicode.IsUpper":                    "golang.org/x/telemetry/internal/vrt.IsUpperRune",
+	"unicode.IsLower":                    "golang.org/x/telemetry/internal/vrt.IsLowerRune",
 	"runtime/debug.ReadBuildInfo":        "golang.org/x/telemetry/internal/vrt.ReadBuildInfo",
 	"(*sync.Pool).Get":                   "golang.org/x/telemetry/internal/vrt.PoolGet",
 	"(*sync.Pool).Put":                   "golang.org/x/telemetry/internal/vrt.PoolPut",
@@ -80,6 +84,15 @@ func (e *Engine) initIntrinsics() {
 	in["vrt.Observe"] = func(p *Path, fn *ssa.Function, args []Value) Value {
 		p.obs = append(p.obs, args[0].(*Term))
 		return nil
+	}
+	in["vrt.Unsupported"] = func(p *Path, fn *ssa.Function, args []Value) Value {
+		msg := "vrt.Unsupported"
+		if s, ok := args[0].(*Str); ok {
+			if c, ok := strConcrete(s); ok {
+				msg = c
+			}
+		}
+		panic(p.unsupported("%s", msg))
 	}
 	in["vrt.IsSymbolic"] = func(p *Path, fn *ssa.Function, args []Value) Value { return p.tt.True() }
 	in["vrt.Assume"] = func(p *Path, fn *ssa.Function, args []Value) Value {
@@ -740,6 +753,9 @@ func (p *Path) fmtScalar(spec string, t *Term, typ types.Type, lenient bool) []*
 		}
 		p.gtext[t.ID] = bs
 		return bs
+	}
+	if !t.IsConst() && t.S.K == SBool && !lenient {
+		t = p.tt.Bool(p.branch(t))
 	}
 	if !t.IsConst() {
 		if lenient {
